@@ -155,11 +155,15 @@ def _rand_spec(rng, k):
         # the seed option of the population optimizer: 0 is a valid seed (every third such configuration); SciPy's newer name
         # for the option is `rng`
         "de_seed": 0 if (k // 4) % 3 == 0 else rng.randrange(1, 1000), "de_seed_name": "rng" if (k // 4) % 4 == 1 else "seed",
+        # the seed option may also be a generator OBJECT (the configuration then holds mutable state that no run may advance)
+        "de_seed_object": {2: "generator", 3: "randomstate"}.get((k // 4) % 4) if systematic else rng.choice([None, None, "generator", "randomstate"]),
         "parallel": method == "differential_evolution" and workload != "nested" and (k // 4) % 3 == 1,
         "speculative": method in ("slsqp", "l-bfgs-b") and rng.random() < 0.3, "start": [rng.choice([-0.25, 0.0, 0.125, 0.5]) for _ in range(nvar)],
         "constraint": method in ("slsqp", "differential_evolution") and rng.random() < 0.4,
         "split": rng.random() < 0.2,
     }
+    # a realization with a configured weight of exactly zero (its gradient column is never computed)
+    spec["zero_weight"] = nreal >= 2 and not (nreal == 2 and spec["estimator"] == "stddev") and rng.random() < 0.5
     if spec["estimator"] == "stddev":
         spec["merge"] = False
     if method == "differential_evolution":
@@ -226,6 +230,8 @@ def _schedules(tier, rng):
         _sched("evaluator-step-and-unused-evaluator-first", "config-eval", 1),
         # complete other optimizations run inside the evaluator of the run under test (same context and manager)
         _sched("other-runs-inside-evaluator", "context", 1, interleave=[1, 2, 4]),
+        # foreign memory traffic: freed small blocks full of NaN before every evaluation and at the end of every evaluator call
+        dict(_sched("heap-polluted-with-nan", "fresh", 1), pollute=True),
         _sched("reseed-before", "fresh", 0, pre=[r(1000), -3, 1000 + r(1000)]),
         _sched("reseed-between-and-inside", "fresh", 0, pre=[r(1000)], between=[r(1000), -2, 1000 + r(1000)],
                inside=[-1, r(1000), -5, 1000 + r(1000)]),
@@ -552,7 +558,7 @@ def _config(spec):
         "variables": {"initial_values": spec["start"], "lower_bounds": [-1.0] * nvar, "upper_bounds": [1.0] * nvar},
         "optimizer": {"method": spec["method"], "max_functions": spec["max_functions"],
                       "split_evaluations": bool(spec["split"])},
-        "realizations": {"weights": [1.0 + 0.5 * r for r in range(nreal)]},
+        "realizations": {"weights": [0.0 if spec.get("zero_weight") and r == 1 else 1.0 + 0.5 * r for r in range(nreal)]},
         "gradient": {"number_of_perturbations": spec["npert"],
                      "perturbation_magnitudes": 0.0625, "merge_realizations": bool(spec["merge"])},
         "samplers": [{"method": s["method"], "shared": s["shared"], **({"options": s["options"]} if "options" in s else {})}
@@ -566,7 +572,12 @@ def _config(spec):
     if spec["sampler_idx"] is not None:
         config["gradient"]["samplers"] = spec["sampler_idx"]
     if spec["method"] == "differential_evolution":
-        config["optimizer"]["options"] = {spec.get("de_seed_name", "seed"): spec["de_seed"], "popsize": 2, "maxiter": 3}
+        seed_value = spec["de_seed"]
+        if spec.get("de_seed_object") == "generator":
+            seed_value = np.random.default_rng(spec["de_seed"])
+        elif spec.get("de_seed_object") == "randomstate":
+            seed_value = np.random.RandomState(spec["de_seed"])
+        config["optimizer"]["options"] = {spec.get("de_seed_name", "seed"): seed_value, "popsize": 2, "maxiter": 3}
         if spec.get("parallel"):
             config["optimizer"]["parallel"] = True
     if spec.get("speculative"):
@@ -599,6 +610,18 @@ def _evaluate(variables, ctx):
         obj[i, 1] = float(np.sum(np.abs(x + 0.5) ** 1.5)) + 0.0625 * float(r)
         con[i, 0] = float(np.sum(x))
     return EvaluatorResult(objectives=obj, constraints=con if ctx.config.nonlinear_constraints is not None else None)
+
+
+def _pollute(spec):
+    """Foreign memory traffic: allocate and free small float arrays of the shapes ropt's gradient code uses, filled with NaN
+    (numpy keeps freed small blocks in per-size free lists, so the next uninitialised allocation of that size gets them)."""
+    import numpy as np
+    nvar, nreal, npert = spec["nvar"], spec["nreal"], spec["npert"]
+    shapes = [(m, nreal) for m in range(1, nvar + 1)] + [(nreal, m) for m in range(1, nvar + 1)]
+    shapes += [(nvar,), (nreal,), (npert,), (nreal, npert), (npert, nvar), (nreal, npert, nvar), (2, nreal), (1, nreal)]
+    for _ in range(2):
+        blocks = [np.full(shape, np.nan) for shape in shapes for _ in range(8)]
+        del blocks
 
 
 class _Session:
@@ -641,6 +664,9 @@ class _Run:
     def on_start(self, event):
         self.mon.check("evaluation-start")
         self.pending += self.mon.do_foreign(self.sched["between"], self.calls)
+        if self.sched.get("pollute"):
+            _pollute(self.spec)
+            self.pending.append(-50)
 
     def evaluate(self, variables, ctx):
         import numpy as np
@@ -664,6 +690,8 @@ class _Run:
         with self.mon.as_foreign(refresh=False):      # the user's evaluator may do anything; ours is pure NumPy arithmetic
             result = _evaluate(variables, ctx)
         self.entries.append(["C", perturbed, req, _digest(result.objectives, result.constraints)])
+        if self.sched.get("pollute"):
+            _pollute(self.spec)
         return result
 
     def on_finished(self, event):
@@ -1183,7 +1211,8 @@ def features(case, obs):
             "seed_clause": _seed_clause_applies(s),
             "de_seed": (s.get("de_seed_name", "seed") + ("=0" if s["de_seed"] == 0 else "=n") + ("/parallel" if s.get("parallel") else ""))
                        if s["method"] == "differential_evolution" else "-",
-            "speculative": bool(s.get("speculative")), "manager_pairs": len(obs.get("manager_pairs", [])),
+            "speculative": bool(s.get("speculative")), "zero_weight": bool(s.get("zero_weight")),
+            "de_seed_object": s.get("de_seed_object") if s["method"] == "differential_evolution" else None, "manager_pairs": len(obs.get("manager_pairs", [])),
             "private_plugin_in_force": any(mp["a"]["pert"] != obs["ref"]["pert"] for mp in obs.get("manager_pairs", [])), "basic_optimizer_rerun": obs.get("basic_rerun") is not None}
 
 
